@@ -52,6 +52,8 @@ Dispatch(r) ==
   /\ IF r.alias THEN r.type_out \in {r.type, CanonicalOf(r.type)}   \* an alias comes back as itself or as its canonical spelling
                 ELSE r.type_out = r.type                       \* the type string survives (wildcard suffix included)
   /\ r.acc_ok                                                   \* sender, ids, timestamp, state key as in the JSON
+  \* the same JSON value with the string `type` spelled with escapes (\uXXXX, \/) gives the same variant and answers
+  /\ r.spelling_indep
 ContentLaws(r) ==
   r.hascontent => (r.fix_ok /\ r.nodup /\ r.subsumes /\ r.order_indep)
 RawLaws(r) == r.raw_identical /\ r.raw_field_ok
